@@ -47,7 +47,7 @@ def main():
     if not os.path.isdir(WT):
         subprocess.run(["git", "-C", "/repo", "worktree", "add", "-q", "--detach", WT, "HEAD"], check=True)
     verbose = "-v" in sys.argv
-    ids = [a for a in sys.argv[1:] if not a.startswith("-")] or sorted(os.listdir("/verif/seeded"))
+    ids = [a for a in sys.argv[1:] if not a.startswith("-")] or sorted(d for d in os.listdir("/verif/seeded") if os.path.isdir(os.path.join("/verif/seeded", d)))
     from pva.cli import run_property
     from pva.index import Index
     base = {}
@@ -64,6 +64,7 @@ def main():
             continue
         jobs.append((sid, ov, base))
     missed = 0
+    results = {}
     with ProcessPoolExecutor(max_workers=min(12, len(jobs) or 1)) as ex:
         for sid, fired in ex.map(job, jobs):
             own = os.path.basename(sid).split("-")[0]
@@ -72,11 +73,19 @@ def main():
             status = "" if own is None else ("caught" if ok else "MISSED")
             missed += status == "MISSED"
             print(f"{sid:10} {status:7} fired: {' '.join(sorted(fired)) or '-'}")
+            results[os.path.basename(sid)] = {"own_property_check_fires": bool(ok), "checks_that_fire": sorted(fired),
+                                              "first_report": {p: d[0] for p, d in fired.items()}}
             if verbose or status == "MISSED":
                 for p, d in fired.items():
                     for x in d:
                         print(f"      {p}: {x}")
     print(f"missed={missed} of {len(jobs)}")
+    if "--write" in sys.argv:
+        import json
+        path = "/verif/seeded/RESULTS.json"
+        old = json.load(open(path)) if os.path.exists(path) else {}
+        old.update(results)
+        json.dump(old, open(path, "w"), indent=1, sort_keys=True)
 
 
 if __name__ == "__main__":
